@@ -164,7 +164,7 @@ pub fn run(a: &Args, rep: &mut Report) {
     #[cfg(not(miri))]
     trapemu::install();
     let mut r = Rng::derive(a.seed, "c14", a.shard);
-    let n = a.budget(3_000, 1_000_000);
+    let n = a.budget(10_000, 1_000_000);
     for i in 0..n {
         history::<1>(rep, &mut r);
         history::<2>(rep, &mut r);
